@@ -142,7 +142,7 @@ Proof.
     destruct (wpos <? zlen str) eqn:E.
   - exists wpos. split; [lia|reflexivity].
   - left. repeat split. apply zfirstn_all. lia.
-  - destruct x as [n|].
+  - destruct x as [n|e].
     + unfold os_ret. set (ret := Z.max 0 (Z.min n (zlen str - wpos))).
       destruct (ret =? 0) eqn:E0.
       * exists wpos. split; [lia|reflexivity].
@@ -167,7 +167,7 @@ Proof.
   induction pre as [|x pre IH]; intros rest str wpos calls HF H0 Hs.
   - cbn [app wsum zlen]. now rewrite !Z.add_0_r.
   - inversion HF as [|? ? Hx HF']; subst. pose proof (wsum_nonneg _ HF') as Hn.
-    destruct x as [n|]; cbn [ge1] in Hx; [|contradiction].
+    destruct x as [n|e]; cbn [ge1] in Hx; [|contradiction].
     cbn [wsum zlen] in *. cbn [app write_loop].
     replace (wpos <? zlen str) with true by lia.
     unfold os_ret. replace (Z.max 0 (Z.min n (zlen str - wpos))) with n by lia.
@@ -191,7 +191,7 @@ Proof.
     + destruct rest; cbn [write_loop]; rewrite Z.ltb_irrefl; now rewrite zfirstn_all by lia.
     + cbn [zlen]. lia.
   - inversion HF as [|? ? Hx HF']; subst. pose proof (wsum_nonneg _ HF') as Hn.
-    destruct x as [n|]; cbn [ge1] in Hx; [|contradiction].
+    destruct x as [n|e]; cbn [ge1] in Hx; [|contradiction].
     cbn [wsum zlen] in *. cbn [app write_loop].
     destruct (wpos <? zlen str) eqn:E.
     + unfold os_ret. set (ret := Z.max 0 (Z.min n (zlen str - wpos))).
@@ -214,7 +214,7 @@ Proof.
   - right. exists wpos. cbn [zlen]. rewrite Z.add_0_r. split; [reflexivity|lia].
   - left. exists calls. now rewrite zfirstn_all by lia.
   - inversion HF as [|? ? Hx HF']; subst.
-    destruct x as [n|]; cbn [ge1] in Hx; [|contradiction].
+    destruct x as [n|e]; cbn [ge1] in Hx; [|contradiction].
     unfold os_ret. set (ret := Z.max 0 (Z.min n (zlen str - wpos))).
     replace (ret =? 0) with false by lia.
     wstep.
@@ -272,30 +272,30 @@ Qed.
 
 (* an error at call k = |pre| + 1, before completion: -1, message, and the descriptor holds
    exactly the bytes of the first k-1 transfers *)
-Theorem write_error : forall pre post ser,
+Theorem write_error : forall pre e post ser,
   Forall ge1 pre -> wsum pre < zlen (c_str ser) ->
-  object_to_fd (pre ++ Err :: post) false (Some ser) =
+  object_to_fd (pre ++ Err e :: post) false (Some ser) =
     WRet (-1) true (zfirstn (wsum pre) (c_str ser)) (zlen pre + 1)
   /\ strict_prefix (zfirstn (wsum pre) (c_str ser)) (c_str ser).
 Proof.
-  intros pre post ser HF Hs. pose proof (wsum_nonneg _ HF).
+  intros pre e post ser HF Hs. pose proof (wsum_nonneg _ HF).
   split; [|apply zfirstn_strict_prefix; lia].
   unfold object_to_fd, object_to_fd_inner.
-  pose proof (write_loop_prefix pre (Err :: post) (c_str ser) 0 0 HF) as P.
+  pose proof (write_loop_prefix pre (Err e :: post) (c_str ser) 0 0 HF) as P.
   rewrite zfirstn_0, zskipn_0 in P. rewrite P by lia.
   cbn [write_loop Z.add]. replace (wsum pre <? zlen (c_str ser)) with true by lia.
   reflexivity.
 Qed.
 
 (* an error scheduled after the last byte went out is never seen *)
-Theorem write_error_after_completion : forall pre post ser,
+Theorem write_error_after_completion : forall pre e post ser,
   Forall ge1 pre -> zlen (c_str ser) <= wsum pre ->
-  exists calls, object_to_fd (pre ++ Err :: post) false (Some ser) = WRet 0 false (c_str ser) calls
+  exists calls, object_to_fd (pre ++ Err e :: post) false (Some ser) = WRet 0 false (c_str ser) calls
                 /\ calls <= zlen pre.
 Proof.
-  intros pre post ser HF Hs. unfold object_to_fd, object_to_fd_inner.
+  intros pre e post ser HF Hs. unfold object_to_fd, object_to_fd_inner.
   pose proof (zlen_nonneg (c_str ser)).
-  destruct (write_loop_enough pre (Err :: post) (c_str ser) 0 0 HF) as (c & Hc & Hb1 & Hb2); [lia|lia|].
+  destruct (write_loop_enough pre (Err e :: post) (c_str ser) 0 0 HF) as (c & Hc & Hb1 & Hb2); [lia|lia|].
   rewrite zfirstn_0, zskipn_0 in Hc. exists c. split; [exact Hc|lia].
 Qed.
 
@@ -390,7 +390,7 @@ Lemma read_loop_sound : forall app_ok sched data rpos calls,
 Proof.
   induction sched as [|x sched IH]; intros data rpos calls H; cbn [read_loop].
   - exists rpos. split; [lia|reflexivity].
-  - destruct x as [n|]; [|exists rpos; split; [lia|reflexivity]].
+  - destruct x as [n|e]; [|exists rpos; split; [lia|reflexivity]].
     rstep data rpos n H ret Hret.
     destruct (0 <? ret) eqn:E; [|exists rpos; split; [lia|reflexivity]].
     destruct (app_ok rpos ret); [|exists rpos; split; [lia|reflexivity]].
@@ -408,7 +408,7 @@ Proof.
   induction pre as [|x pre IH]; intros rpos calls HF H0 Hs.
   - cbn [app rsum zlen]. now rewrite !Z.add_0_r.
   - inversion HF as [|? ? Hx HF']; subst. pose proof (rsum_nonneg _ HF') as Hn.
-    destruct x as [n|]; cbn [ge1] in Hx; [|contradiction].
+    destruct x as [n|e]; cbn [ge1] in Hx; [|contradiction].
     cbn [rsum zlen] in *. cbn [app read_loop].
     assert (H : 0 <= rpos <= zlen data) by (unfold JSON_FILE_BUF_SIZE in *; lia).
     rstep data rpos n H ret Hret.
@@ -431,7 +431,7 @@ Proof.
   intros app_ok sched data rpos calls HA. revert rpos calls.
   induction sched as [|x sched IH]; intros rpos calls HF H0 Hs; cbn [zlen] in Hs; [lia|].
   inversion HF as [|? ? Hx HF']; subst.
-  destruct x as [n|]; cbn [ge1] in Hx; [|contradiction].
+  destruct x as [n|e]; cbn [ge1] in Hx; [|contradiction].
   cbn [read_loop]. rstep data rpos n H0 ret Hret.
   destruct (0 <? ret) eqn:E.
   - rewrite HA. rnext.
@@ -453,7 +453,7 @@ Proof.
   induction sched as [|x sched IH]; intros rpos calls HF H0; cbn [read_loop].
   - right. exists rpos. cbn [zlen]. rewrite Z.add_0_r. split; [reflexivity|lia].
   - inversion HF as [|? ? Hx HF']; subst.
-    destruct x as [n|]; cbn [ge1] in Hx; [|contradiction].
+    destruct x as [n|e]; cbn [ge1] in Hx; [|contradiction].
     rstep data rpos n H0 ret Hret.
     destruct (0 <? ret) eqn:E.
     + rewrite HA. rnext.
@@ -530,15 +530,15 @@ Qed.
 
 (* a read error at call k = |pre| + 1 (the data need not be exhausted: the call that would
    have reported end of file can fail too): NULL, message, parser never called, nothing live *)
-Theorem read_error : forall parse app_ok pre post data in_depth,
+Theorem read_error : forall parse app_ok pre e post data in_depth,
   always app_ok -> Forall ge1 pre -> rsum pre <= zlen data -> 1 <= eff_depth in_depth ->
-  object_from_fd_ex parse app_ok (pre ++ Err :: post) data in_depth =
+  object_from_fd_ex parse app_ok (pre ++ Err e :: post) data in_depth =
     RRet (mkrout JNull MRead (zlen pre + 1) None 0).
 Proof.
-  intros parse app_ok pre post data in_depth HA HF Hs Hd.
+  intros parse app_ok pre e post data in_depth HA HF Hs Hd.
   unfold object_from_fd_ex. fold (eff_depth in_depth).
   replace (eff_depth in_depth <? 1) with false by lia.
-  pose proof (read_loop_prefix app_ok pre (Err :: post) data 0 0 HA HF) as P.
+  pose proof (read_loop_prefix app_ok pre (Err e :: post) data 0 0 HA HF) as P.
   rewrite zfirstn_0, zskipn_0 in P. rewrite P by lia.
   cbn [read_loop Z.add]. reflexivity.
 Qed.
@@ -605,7 +605,7 @@ Qed.
 Example write_nonvacuous :
   object_to_fd [Short 2; Short 1; Short 100] false (Some [104;101;108;108;111]) =
     WRet 0 false [104;101;108;108;111] 3
-  /\ object_to_fd [Short 2; Err; Short 100] false (Some [104;101;108;108;111]) =
+  /\ object_to_fd [Short 2; Err 5; Short 100] false (Some [104;101;108;108;111]) =
     WRet (-1) true [104;101] 2
   /\ object_to_fd [Short 2; Short 0; Short 100] false (Some [104;101;108;108;111]) =
     WSpin [104;101] 2
@@ -621,7 +621,9 @@ Example read_nonvacuous :
     RRet (mkrout (JArr [JInt 7; JStr [91;49;93]]) MNone 3 (Some (7, [91;49;93])) 0)
   /\ object_from_fd_ex show_parse (fun _ _ => true) [Short 3; Short 3] [91;49;93] (-1) =
     RRet (mkrout (JArr [JInt 32; JStr [91;49;93]]) MNone 2 (Some (32, [91;49;93])) 0)
-  /\ object_from_fd_ex show_parse (fun _ _ => true) [Short 2; Err] [91;49;93] 7 =
+  /\ object_from_fd_ex show_parse (fun _ _ => true) [Short 2; Err 5] [91;49;93] 7 =
+    RRet (mkrout JNull MRead 2 None 0)
+  /\ object_from_fd_ex show_parse (fun _ _ => true) [Short 3; Err 4] [91;49;93] 7 =   (* EINTR at the end-of-file call *)
     RRet (mkrout JNull MRead 2 None 0)
   /\ object_from_fd_ex (fun _ _ => None) (fun _ _ => true) [Short 2; Short 2; Short 2] [91;49;93] 7 =
     RRet (mkrout JNull MParse 3 (Some (7, [91;49;93])) 0)
